@@ -127,6 +127,37 @@ fn c17a_closest_ancestor_v6() {
     kani::cover!(c.addr_len() == a.addr_len() && a.addr_len() < b.addr_len());
 }
 
+//------------ C16(a): the same prefix operations as client-controlled arithmetic -
+
+/// ROA prefixes and max lengths come from API clients and feed these
+/// operations through the BGP analyser: none of them may panic (shift or
+/// subtraction overflow) for any well-formed prefix and any index.
+#[kani::proof]
+fn c16a_route_prefix_ops_v4() {
+    let a = any_v4();
+    let b = any_v4();
+    let i: u8 = kani::any();
+    let _ = a.covers(b);
+    let _ = a.closest_ancestor(b);
+    let _ = a.bit(i);
+    kani::cover!(a.addr_len() == 32 && b.addr_len() == 32);
+    kani::cover!(a.addr_len() == 0);
+    kani::cover!(i == 255);
+}
+
+#[kani::proof]
+fn c16a_route_prefix_ops_v6() {
+    let a = any_v6();
+    let b = any_v6();
+    let i: u8 = kani::any();
+    let _ = a.covers(b);
+    let _ = a.closest_ancestor(b);
+    let _ = a.bit(i);
+    kani::cover!(a.addr_len() == 128 && b.addr_len() == 128);
+    kani::cover!(a.addr_len() == 0);
+    kani::cover!(i == 255);
+}
+
 //------------ C17(f'): grouping of equal-prefix route origins ----------------
 
 /// `origin_set(idx)` over a sorted box of 3 arbitrary origins returns exactly
